@@ -2345,3 +2345,255 @@ Proof.
   - destruct (tpipe (th st t) <? 0); inversion H; subst; clear H; [apply Same; [intros e []|exact R]|].
     cbn. apply (cr_steq _ st); auto. intro u. split; [thr_simpl|split; [thr_simpl|intros _; thr_simpl]].
 Qed.
+
+(** ** the end of a command: the monitor sees [ERet v] *)
+Lemma rm_tid_absent : forall A t (l : list (tid * A)), get_tid t l = None -> rm_tid t l = l.
+Proof.
+  induction l as [|[u x] l IH]; intro H; [reflexivity|]. cbn in *. destruct (Nat.eqb_spec u t); [discriminate|]. rewrite IH; auto.
+Qed.
+
+Section CDone.
+  Variables (p : pend) (st st2 : wstate) (m m' : m13) (t : tid) (ex_a : list (tid * (Z * Z))) (ex_d : list Z).
+  Hypothesis R : CRel p st m.
+  Hypothesis Hp : p = PNone \/ (exists c x, p = PAcc t c x) \/ (exists c, p = PBadDrop t c).
+  Hypothesis Ho : forall u, u <> t -> thr st2 u = thr st u.
+  Hypothesis Ht : tcur (thr st2 t) = None /\ tcont (thr st2 t) = tcont (thr st t).
+  Hypothesis Hk : tcont (thr st t) = [].
+  Hypothesis Hch : chs st2 = chs st.
+  Hypothesis M1 : m13_sends m' = m13_sends m.
+  Hypothesis M2 : m13_acc m' = ex_a ++ m13_acc m.
+  Hypothesis M3 : m13_fwd m' = m13_fwd m.
+  Hypothesis M5 : m13_cdone m' = ex_d ++ m13_cdone m.
+  Hypothesis M6 : m13_late m' = rm_tid t (m13_late m).
+  Hypothesis M7 : m13_bad m' = false.
+  Hypothesis Hacc : forall c, copen (chs st c) = true -> accs m' c = accs m c ++ pendm p c.
+  Hypothesis Hdn : forall c, In c ex_d -> copen (chs st c) = false /\ cexists (chs st c) = true.
+  Hypothesis Hbg : forall c, memZ c (begun_of p m) = true -> memZ c (m13_cbegun m') = true.
+  Hypothesis Hexa : forall u c x, In (u, (c, x)) ex_a -> u = t /\ cexists (chs st c) = true /\ exists l, In (mkCS t c x l) (m13_sends m).
+  Hypothesis Hand : NoDup (map snd (m13_acc m')).
+  Hypothesis Hord : forall u c x a2, ex_a = [(u, (c, x))] -> a2 = m13_acc m ->
+          forall l l1 l2, m13_sends m = l1 ++ mkCS u c x l :: l2 ->
+          forall e, In e l2 -> cs_tid e = u -> In (u, (cs_c e, cs_m e)) (m13_acc m') -> In (u, (cs_c e, cs_m e)) a2.
+  Hypothesis Hexa1 : ex_a = [] \/ exists a, ex_a = [a].
+  Hypothesis Hordold : forall a1 u c x a2, m13_acc m = a1 ++ (u, (c, x)) :: a2 ->
+          forall l l1 l2, m13_sends m = l1 ++ mkCS u c x l :: l2 ->
+          forall e, In e l2 -> cs_tid e = u -> In (u, (cs_c e, cs_m e)) ex_a -> False.
+
+  Lemma cr_done_gen : CRel PNone st2 m'.
+  Proof.
+    assert (Cu : forall u, u <> t -> tcur (thr st2 u) = tcur (thr st u)) by (intros u Hu; rewrite (Ho u Hu); reflexivity).
+    assert (Tr : forall c, transit st2 c = transit st c).
+    { intro c. unfold transit. destruct (Nat.eq_dec main t) as [E|E]; [rewrite E; destruct Ht as [_ K]; rewrite K; reflexivity|rewrite (Ho main E); reflexivity]. }
+    assert (Fc : forall c, fwds m' c = fwds m c) by (intro c; unfold fwds; rewrite M3; reflexivity).
+    assert (Glate : forall u, u <> t -> get_tid u (m13_late m') = get_tid u (m13_late m)) by (intros u Hu; rewrite M6; apply get_tid_rm_other; exact Hu).
+    assert (NotT : forall u c, tcur (thr st2 u) = Some c -> u <> t) by (intros u c Hu E; subst u; destruct Ht as [K _]; congruence).
+    assert (NoPacc : forall u c x, u <> t -> p <> PAcc u c x).
+    { intros u c x Nu E. destruct Hp as [->|[[c1 [x1 ->]]|[c1 ->]]]; try discriminate E. inversion E. congruence. }
+    constructor.
+    - exact M7.
+    - intros c. rewrite Hch, Fc, Tr. intro Ho0. rewrite (Hacc c Ho0), app_nil_r. apply (r_open p st m R c Ho0).
+    - intros c. rewrite M5, Hch. unfold memZ. rewrite existsb_app. intro H. apply orb_true_iff in H. destruct H as [H|H].
+      + apply existsb_exists in H. destruct H as [y [Hy E]]. apply Z.eqb_eq in E. subst y. apply Hdn. exact Hy.
+      + apply (r_done p st m R c H).
+    - intros c. rewrite Hch. cbn [begun_of]. intros E1 E2. apply Hbg. apply (r_begun p st m R c E1 E2).
+    - intros u c x. rewrite M2, Hch. intro H. apply in_app_or in H. destruct H as [H|H]; [apply (Hexa u c x H)|apply (r_ex_acc p st m R u c x H)].
+    - intros c x. rewrite M3, Hch. apply (r_ex_fwd p st m R).
+    - intros u c x. rewrite M2, M1. intro H. apply in_app_or in H. destruct H as [H|H]; [|apply (r_acc_sent p st m R u c x H)].
+      destruct (Hexa u c x H) as [-> [_ X]]. exact X.
+    - exact Hand.
+    - intros u l Hl. destruct (Nat.eq_dec u t) as [->|Hu].
+      + rewrite M6, (get_tid_rm_same _ t _ (r_late_nd p st m R)) in Hl. discriminate Hl.
+      + rewrite (Glate u Hu) in Hl. destruct (r_late_dom p st m R u l Hl) as [c X]. exists c. rewrite (Cu u Hu). exact X.
+    - rewrite M6. apply rm_tid_nd. apply (r_late_nd p st m R).
+    - intros u c x Hu. pose proof (NotT u _ Hu) as Nu. rewrite (Cu u Nu) in Hu. rewrite (Ho u Nu), Hch, M1, M2, (Glate u Nu).
+      destruct (r_send p st m R u c x Hu) as [S1 [S2 S3]]. split; [exact S1|]. split.
+      + intro H. apply in_app_or in H. destruct H as [H|H]; [destruct (Hexa u c x H) as [E _]; congruence|exact (S2 H)].
+      + intro Hr. exfalso. exact (NoPacc u c x Nu (S3 Hr)).
+    - intros u c x H. discriminate H.
+    - intros u c Hu. pose proof (NotT u _ Hu) as Nu. rewrite (Cu u Nu) in Hu. rewrite (Ho u Nu), Hch, (Glate u Nu).
+      apply (r_closedcmd p st m R u c Hu).
+    - intros u c Hu. pose proof (NotT u _ Hu) as Nu. rewrite (Cu u Nu) in Hu. rewrite (Ho u Nu), Hch. cbn [begun_of].
+      destruct (r_dropcmd p st m R u c Hu) as [[D _]|[_ [D2 D3]]].
+      + exfalso. destruct Hp as [->|[[c1 [x1 ->]]|[c1 ->]]]; try discriminate D. inversion D. congruence.
+      + right. split; [discriminate|]. split; [apply Hbg; exact D2|exact D3].
+    - intros u c H. discriminate H.
+    - destruct Hexa1 as [E0|[a E0]].
+      + intros a1 u c x a2. rewrite M2, M1, E0. cbn [app]. apply (r_ord p st m R).
+      + intros a1 u c x a2. rewrite M2, M1, E0. cbn [app]. intros Ea l l1 l2 El e He Et Hin.
+        destruct a1 as [|a0 a1'].
+        * cbn in Ea. inversion Ea; subst a a2. apply (Hord u c x (m13_acc m) E0 eq_refl l l1 l2 El e He Et).
+          rewrite M2, E0. exact Hin.
+        * cbn in Ea. injection Ea as Ea0 Ea'. subst a0.
+          destruct Hin as [Hin|Hin].
+          -- exfalso. apply (Hordold a1' u c x a2 Ea' l l1 l2 El e He Et). rewrite E0. left. exact Hin.
+          -- apply (r_ord p st m R a1' u c x a2 Ea' l l1 l2 El e He Et Hin).
+  Qed.
+End CDone.
+
+Definition chan_cmd (c : cmd) : Prop := match c with CSend _ _ | CClosed _ | CCDrop _ => True | _ => False end.
+
+Lemma accs_cons_acc : forall m m' t c x c1,
+  m13_acc m' = [(t, (c, x))] ++ m13_acc m -> accs m' c1 = accs m c1 ++ (if c =? c1 then [x] else []).
+Proof.
+  intros m m' t c x c1 E. rewrite !accs_eq, E. cbn [app flat_map]. unfold accf at 1. cbn [fst snd].
+  rewrite rev_app_distr. destruct (c =? c1); cbn; [reflexivity|rewrite app_nil_r; reflexivity].
+Qed.
+
+Lemma retv_true_dec : forall v : retv, {v = RBool true} + {v <> RBool true}.
+Proof. intro v. destruct v as [| | |b|z|]; try (right; discriminate). destruct b; [left; reflexivity|right; discriminate]. Qed.
+
+Lemma cr_ret : forall p st m t c v st2,
+  ShInv st -> CRel p st m -> NoDup (map sk (m13_sends m)) ->
+  tcur (thr st t) = Some c -> tcont (thr st t) = [] -> get_tid t (b_cur (m13_b m)) = Some c ->
+  ((v = tret (thr st t) /\ (p = PNone \/ exists c0 x, p = PAcc t c0 x)) \/
+   ((chan_cmd c -> v = RBad) /\ p = pend_begin t c (Some v) /\ tret (thr st t) = RUnit)) ->
+  (forall u, u <> t -> thr st2 u = thr st u) -> tcur (thr st2 t) = None -> tcont (thr st2 t) = [] -> chs st2 = chs st ->
+  CRel PNone st2 (m13_step m (t, ERet v)).
+Proof.
+  intros p st m t c v st2 S R Nd Hu Hk Hg Hv Ho Hcur2 Hk2 Hch.
+  assert (Ht2 : tcur (thr st2 t) = None /\ tcont (thr st2 t) = tcont (thr st t)) by (rewrite Hk; auto).
+  assert (Hp : p = PNone \/ (exists c0 x, p = PAcc t c0 x) \/ (exists c0, p = PBadDrop t c0)).
+  { destruct Hv as [[_ [X|X]]|[_ [X _]]]; auto. rewrite X. unfold pend_begin. destruct c; eauto. }
+  assert (NoAcc : (forall c0 x, c <> CSend c0 x) -> forall c1, pendm p c1 = []).
+  { intros N c1. destruct p as [|u c0 x|u c0]; try reflexivity. destruct (r_pacc _ st m R u c0 x eq_refl) as [A _].
+    destruct Hp as [X|[[c2 [x2 X]]|[c2 X]]]; try discriminate X. inversion X; subst. rewrite Hu in A. inversion A. exfalso. eapply N; eauto. }
+  assert (NoBad : (forall c0, c <> CCDrop c0) -> begun_of p m = m13_cbegun m).
+  { intros N. destruct p as [|u c0 x|u c0]; try reflexivity. destruct (r_pbad _ st m R u c0 eq_refl) as [A _].
+    destruct Hp as [X|[[c2 [x2 X]]|[c2 X]]]; try discriminate X. inversion X; subst. rewrite Hu in A. inversion A. exfalso. eapply N; eauto. }
+  assert (Bad0 : m13_bad m = false) by (apply (r_bad _ st m R)).
+  (* completions that accept nothing *)
+  assert (Gen0 : forall ex_d,
+                  (forall c1, pendm p c1 = []) ->
+                  m13_sends (m13_step m (t, ERet v)) = m13_sends m -> m13_acc (m13_step m (t, ERet v)) = m13_acc m ->
+                  m13_fwd (m13_step m (t, ERet v)) = m13_fwd m ->
+                  m13_cdone (m13_step m (t, ERet v)) = ex_d ++ m13_cdone m ->
+                  m13_late (m13_step m (t, ERet v)) = rm_tid t (m13_late m) ->
+                  m13_bad (m13_step m (t, ERet v)) = false ->
+                  (forall c1, In c1 ex_d -> copen (chs st c1) = false /\ cexists (chs st c1) = true) ->
+                  (forall c1, memZ c1 (begun_of p m) = true -> memZ c1 (m13_cbegun (m13_step m (t, ERet v))) = true) ->
+                  CRel PNone st2 (m13_step m (t, ERet v))).
+  { intros ex_d Pm E1 E2 E3 E5 E6 E7 Hdn Hbg.
+    apply (cr_done_gen p st st2 m _ t [] ex_d R Hp Ho Ht2 Hch E1 E2 E3 E5 E6 E7); auto.
+    - intros c1 _. rewrite accs_eq, E2, <- accs_eq, Pm, app_nil_r. reflexivity.
+    - intros u c1 x1 [].
+    - rewrite E2. apply (r_acc_nd _ st m R).
+    - intros; discriminate. }
+  assert (Other : (forall c0 x, c <> CSend c0 x) -> (forall c0, c <> CClosed c0) -> (forall c0, c <> CCDrop c0) ->
+                  m13_sends (m13_step m (t, ERet v)) = m13_sends m /\ m13_acc (m13_step m (t, ERet v)) = m13_acc m /\
+                  m13_fwd (m13_step m (t, ERet v)) = m13_fwd m /\ m13_cbegun (m13_step m (t, ERet v)) = m13_cbegun m /\
+                  m13_cdone (m13_step m (t, ERet v)) = m13_cdone m /\ m13_late (m13_step m (t, ERet v)) = rm_tid t (m13_late m) /\
+                  m13_bad (m13_step m (t, ERet v)) = m13_bad m ->
+                  CRel PNone st2 (m13_step m (t, ERet v))).
+  { intros N1 N2 N3 [E1 [E2 [E3 [E4 [E5 [E6 E7]]]]]].
+    apply (Gen0 []); auto; try congruence.
+    - intros c1 [].
+    - intros c1. rewrite (NoBad N3), E4. auto. }
+  destruct c as [w|w|c0 x|c0|w|n| | | | | |c0|c0|p0|p0 x|p0| |x| | ];
+    try (apply Other; try (intros; discriminate); unfold m13_step; rewrite Hg; repeat split; reflexivity).
+  - (* CSend *)
+    destruct (r_send _ st m R t c0 x Hu) as [[l [l1 [l2 [S1 [S2 [S3 S4]]]]]] [S5 S6]].
+    assert (NB : begun_of p m = m13_cbegun m) by (apply NoBad; intros; discriminate).
+    assert (Et : In (mkCS t c0 x l) (m13_sends m)) by (rewrite S1; apply in_or_app; right; left; reflexivity).
+    destruct (retv_true_dec v) as [Ev|Ev].
+    + (* accepted *)
+      subst v.
+      assert (Pa : p = PAcc t c0 x).
+      { destruct Hv as [[Ev _]|[Ev _]]; [apply S6; auto|exfalso; specialize (Ev Logic.I); discriminate Ev]. }
+      destruct (r_pacc _ st m R t c0 x Pa) as [_ [_ [_ Op]]].
+      assert (Lf : l = false) by (destruct l; [destruct (S4 eq_refl); congruence|reflexivity]).
+      assert (Flds : m13_sends (m13_step m (t, ERet (RBool true))) = m13_sends m /\
+                     m13_acc (m13_step m (t, ERet (RBool true))) = [(t, (c0, x))] ++ m13_acc m /\
+                     m13_fwd (m13_step m (t, ERet (RBool true))) = m13_fwd m /\
+                     m13_cbegun (m13_step m (t, ERet (RBool true))) = m13_cbegun m /\
+                     m13_cdone (m13_step m (t, ERet (RBool true))) = [] ++ m13_cdone m /\
+                     m13_late (m13_step m (t, ERet (RBool true))) = rm_tid t (m13_late m) /\
+                     m13_bad (m13_step m (t, ERet (RBool true))) = false).
+      { unfold m13_step. rewrite Hg, S3, Lf. cbn. rewrite Bad0. repeat split; reflexivity. }
+      destruct Flds as [E1 [E2 [E3 [E4 [E5 [E6 E7]]]]]].
+      assert (Uniq : forall u l', In (mkCS u c0 x l') (m13_sends m) -> u = t /\ l' = l).
+      { intros u l' Hin. pose proof (nodup_key_eq _ _ _ Nd Hin Et eq_refl) as E. inversion E. auto. }
+      assert (NdS : NoDup (m13_sends m)) by (eapply NoDup_map_inv; exact Nd).
+      apply (cr_done_gen p st st2 m _ t [(t, (c0, x))] [] R Hp Ho Ht2 Hch E1 E2 E3 E5 E6 E7); auto.
+      * intros c1 _. rewrite (accs_cons_acc m _ t c0 x c1 E2), Pa. reflexivity.
+      * intros c1 [].
+      * intros c1. rewrite NB, E4. auto.
+      * intros u c1 x1 [E|[]]. inversion E; subst u c1 x1. split; [reflexivity|]. split; [apply (sh_ex st S c0); auto|eauto].
+      * rewrite E2. cbn. constructor; [|apply (r_acc_nd _ st m R)].
+        intro Hin. apply in_map_iff in Hin. destruct Hin as [[u [c1 x1]] [E Hin]]. cbn in E. inversion E; subst c1 x1.
+        destruct (r_acc_sent _ st m R u c0 x Hin) as [l' Hl']. destruct (Uniq u l' Hl') as [-> _]. exact (S5 Hin).
+      * intros u c1 x1 a2 E Ea2 l' k1 k2 El e He Et' Hin. injection E as Eu Ec0 Ex0. subst u c1 x1 a2.
+        rewrite E2 in Hin. cbn in Hin. destruct Hin as [Hin|Hin]; [|exact Hin]. exfalso.
+        injection Hin as Ec Ex.
+        assert (He' : In e (m13_sends m)) by (rewrite El; apply in_or_app; right; right; exact He).
+        assert (Ee : e = mkCS t c0 x l') .
+        { apply (nodup_key_eq _ _ _ Nd He'); [rewrite El; apply in_or_app; right; left; reflexivity|]. unfold sk. cbn. rewrite Ec, Ex. reflexivity. }
+        rewrite El in NdS. apply NoDup_remove_2 in NdS. apply NdS. apply in_or_app. right. rewrite <- Ee. exact He.
+      * right. eexists; reflexivity.
+      * intros a1 u c1 x1 a2 Ea l' k1 k2 El e He Et' [Hin|[]]. injection Hin as Eu Ec Ex. rewrite <- Eu in El. clear Ea Et' Eu.
+        (* the current send of t is its newest entry, so it cannot be older than another entry of t *)
+        assert (He' : In e (m13_sends m)) by (rewrite El; apply in_or_app; right; right; exact He).
+        assert (Ee : e = mkCS t c0 x l) by (apply (nodup_key_eq _ _ _ Nd He' Et); unfold sk; cbn; rewrite <- Ec, <- Ex; reflexivity).
+        rewrite Ee in He.
+        apply in_split in He. destruct He as [k3 [k4 Ek2]].
+        assert (Spl' : (k1 ++ mkCS t c1 x1 l' :: k3) ++ mkCS t c0 x l :: k4 = l1 ++ mkCS t c0 x l :: l2)
+          by (rewrite <- app_assoc; cbn; rewrite <- Ek2, <- El, S1; reflexivity).
+        assert (NdS' : NoDup ((k1 ++ mkCS t c1 x1 l' :: k3) ++ mkCS t c0 x l :: k4)) by (rewrite Spl', <- S1; exact NdS).
+        destruct (nodup_split_unique _ _ _ _ _ _ NdS' Spl') as [X _].
+        apply (S2 (mkCS t c1 x1 l')); [rewrite <- X; apply in_or_app; right; left; reflexivity|reflexivity].
+    + (* refused *)
+      assert (Pn : forall c1, pendm p c1 = []).
+      { intro c1. destruct p as [|u c2 x2|u c2]; try reflexivity. exfalso.
+        destruct Hp as [X|[[c3 [x3 X]]|[c3 X]]]; try discriminate X. inversion X; subst u c3 x3.
+        destruct (r_pacc _ st m R t c2 x2 eq_refl) as [A [_ [B _]]].
+        destruct Hv as [[Ev0 _]|[_ [Ev0 _]]]; [apply Ev; rewrite Ev0; exact B|unfold pend_begin in Ev0; discriminate Ev0]. }
+      apply (Gen0 []); auto.
+      * unfold m13_step. rewrite Hg. destruct v as [| | |b|z|]; try reflexivity. destruct b; [exfalso; apply Ev; reflexivity|reflexivity].
+      * unfold m13_step. rewrite Hg. destruct v as [| | |b|z|]; try reflexivity. destruct b; [exfalso; apply Ev; reflexivity|reflexivity].
+      * unfold m13_step. rewrite Hg. destruct v as [| | |b|z|]; try reflexivity. destruct b; [exfalso; apply Ev; reflexivity|reflexivity].
+      * unfold m13_step. rewrite Hg. destruct v as [| | |b|z|]; try reflexivity. destruct b; [exfalso; apply Ev; reflexivity|reflexivity].
+      * unfold m13_step. rewrite Hg. destruct v as [| | |b|z|]; try reflexivity. destruct b; [exfalso; apply Ev; reflexivity|reflexivity].
+      * unfold m13_step. rewrite Hg. destruct v as [| | |b|z|]; try (cbn; exact Bad0). destruct b; [exfalso; apply Ev; reflexivity|cbn; exact Bad0].
+      * intros c1 [].
+      * intros c1. rewrite NB. unfold m13_step. rewrite Hg. destruct v as [| | |b|z|]; try (cbn; auto; fail). destruct b; [exfalso; apply Ev; reflexivity|cbn; auto].
+  - (* CClosed *)
+    assert (NB : begun_of p m = m13_cbegun m) by (apply NoBad; intros; discriminate).
+    assert (Pn : forall c1, pendm p c1 = []) by (apply NoAcc; intros; discriminate).
+    destruct (r_closedcmd _ st m R t c0 Hu) as [l [L1 [L2 L3]]].
+    apply (Gen0 []); auto.
+    + unfold m13_step. rewrite Hg. destruct v as [| | |b|z|]; reflexivity.
+    + unfold m13_step. rewrite Hg. destruct v as [| | |b|z|]; reflexivity.
+    + unfold m13_step. rewrite Hg. destruct v as [| | |b|z|]; reflexivity.
+    + unfold m13_step. rewrite Hg. destruct v as [| | |b|z|]; reflexivity.
+    + unfold m13_step. rewrite Hg. destruct v as [| | |b|z|]; reflexivity.
+    + unfold m13_step. rewrite Hg, L1. destruct v as [| | |b|z|]; try (cbn; exact Bad0). cbn. rewrite Bad0. cbn.
+      destruct l; [|reflexivity]. cbn.
+      destruct Hv as [[Ev _]|[Ev _]]; [|specialize (Ev Logic.I); discriminate Ev].
+      rewrite (L3 b); [reflexivity|right; congruence|reflexivity].
+    + intros c1 [].
+    + intros c1. rewrite NB. unfold m13_step. rewrite Hg. destruct v as [| | |b|z|]; cbn; auto.
+  - (* CCDrop *)
+    assert (Pn : forall c1, pendm p c1 = []) by (apply NoAcc; intros; discriminate).
+    destruct (sh_drop st S t c0 Hu) as [Tr _].
+    destruct (r_dropcmd _ st m R t c0 Hu) as [[Dp [old Eold]]|[Dp [D2 [D3 D4]]]].
+    + (* the drop was refused *)
+      assert (Ev : v = RBad).
+      { destruct Hv as [[_ [X|[c1 [x1 X]]]]|[Ev _]]; [rewrite Dp in X; discriminate X|rewrite Dp in X; discriminate X|apply Ev; exact Logic.I]. }
+      subst v. apply (Gen0 []); auto; try (unfold m13_step; rewrite Hg; reflexivity).
+      * unfold m13_step. rewrite Hg. cbn. exact Bad0.
+      * intros c1 [].
+      * intros c1. rewrite Dp. cbn [begun_of]. unfold m13_step. rewrite Hg. cbn [m13_cbegun]. rewrite Eold. cbn. rewrite Z.eqb_refl. auto.
+    + (* the close has been carried out *)
+      assert (Ev : v = RUnit).
+      { destruct Hv as [[X _]|[_ [X _]]]; [congruence|]. exfalso. apply Dp. rewrite X. unfold pend_begin. reflexivity. }
+      subst v.
+      assert (Cl : copen (chs st c0) = false).
+      { destruct D4 as [[m0 Hin]|X]; [rewrite Hk in Hin; destruct Hin|exact X]. }
+      assert (NB : begun_of p m = m13_cbegun m).
+      { destruct p as [|u c2 x2|u c2]; try reflexivity. exfalso.
+        destruct Hp as [X|[[c3 [x3 X]]|[c3 X]]]; try discriminate X. inversion X; subst u c3.
+        destruct (r_pbad _ st m R t c2 eq_refl) as [A _]. rewrite Hu in A. inversion A; subst c2. apply Dp. reflexivity. }
+      apply (Gen0 [c0]); auto; try (unfold m13_step; rewrite Hg; reflexivity).
+      * unfold m13_step. rewrite Hg. cbn. exact Bad0.
+      * intros c1 [<-|[]]. auto.
+      * intros c1. rewrite NB. unfold m13_step. rewrite Hg. cbn. auto.
+Qed.
